@@ -229,7 +229,10 @@ def tie_threshold(rng, pts, cost, which):
 
 
 def tie_curve(rng, n):
-    """integer staircases / symmetric shapes: many segments with exactly equal ordering keys"""
+    """integer staircases / symmetric shapes: many segments with exactly equal ordering keys; steep zig-zags"""
+    if rng.random() < 0.3:
+        sc = rng.choice([1, 10])
+        return np.array([[float(i), float(rng.randrange(0, 10) * sc)] for i in range(n)]), 'zigzag-int'
     if rng.random() < 0.5:
         h = (n + 1) // 2
         half = [rng.randrange(0, 9) for _ in range(h)]
